@@ -200,7 +200,9 @@ def spec_valid(h):
     """does the input satisfy the documented preconditions (so that it MUST be accepted)?"""
     P = h["P"]
     if h["kind"] == 0:
-        return len(h["raw"]) >= 1 and 2 <= h["raw"][0] <= (1 << P)
+        # `range` is a usize argument: a value >= 2^64 cannot be passed at all (the harness would
+        # truncate it), so it is no input of UniformModel::<u64, 64>::new
+        return len(h["raw"]) >= 1 and 2 <= h["raw"][0] <= (1 << P) and h["raw"][0] < (1 << 64)
     if h["infer"] and len(h["raw"]) == 0:
         return False
     fp = full_probs(h)
